@@ -17,7 +17,8 @@ RULE = ("MDP specs (1-5 states quick, up to 7 thorough; 1-3 actions, state-depen
         "non-absorbing states, some state whose available actions have different Q*, and at least one of "
         "{exact tie, implicit absorbing state, state-dependent action set, non-empty cannot-reach-absorbing set, "
         "multi-state initial distribution}; distinct = distinct (spec, configuration) hash."
-        ' Also: problems of 16-45 states (certified policy-iteration oracle), rewards in other units (x1e12..1e-6), None / gapped-integer labels, batch members with their own vocabularies, model functions returning int flags / shared lists / Deterministic- and UniformDistributions.')
+        ' Also: problems of 16-45 states (certified policy-iteration oracle), rewards in other units (x1e12..1e-6), None / gapped-integer labels, batch members with their own vocabularies, model functions returning int flags / shared lists / Deterministic- and UniformDistributions.'
+        ' 101-130-state problems; states all of whose actions are sure self-loops with cancelling rewards.')
 ASSUMPTIONS = [
     "numpy.linalg.solve on <=7x7 well-conditioned systems is correct",
     "reference optimal values (policy enumeration) are certified per case by their Bellman residual (1e-7)",
